@@ -459,7 +459,7 @@ func TestCheck(t *testing.T) {
 	}
 
 	rng := r.Rand("c09")
-	n := r.N(5000, 2000000)
+	n := r.N(5000, 20000000)
 	for i := 0; i < n; i++ {
 		h := genHistory(rng, 40)
 		c.eval(h)
